@@ -47,6 +47,12 @@ func backSlice(v ssa.Value) *slice {
 					for _, st := range rd.loads[y] {
 						rec(st.(*ssa.Store).Val)
 					}
+					// a struct loaded as a whole: it may have been filled field by field
+					if _, isStruct := y.Type().Underlying().(*types.Struct); isStruct {
+						if a, isA := rootCell(c).(*ssa.Alloc); isA && a.Parent() == fn {
+							rec(a)
+						}
+					}
 					if rd.fromEntry[y] {
 						root := rootCell(c)
 						s.vals[root] = true
